@@ -41,8 +41,11 @@
  *     (ssl/ssl_lib.c, SSL_get_error(): nothing queued, nothing wanted) with errno 0 (ssl3_read_internal()/ssl3_write()
  *     start with clear_sys_error()).  Observed on the OpenSSL 3.0.20 of this image through libxcm: xcm_receive(conn, buf, 0)
  *     on a healthy btls connection with plaintext pending returns 0 and leaves the connection closed.
- *  A4 SSL_write accepts 1..num bytes or nothing (SSL_MODE_ENABLE_PARTIAL_WRITE); what OpenSSL retains of a refused
- *     write (WANT_WRITE) is NOT modelled (DESIGN section 6, F19).
+ *  A4 SSL_write accepts 1..num bytes (SSL_MODE_ENABLE_PARTIAL_WRITE) or fails.  A write refused with WANT_WRITE may already have
+ *     turned the first min(num, 16384) bytes of the buffer into a record that OpenSSL KEEPS (xv_ssl_pending_rec) and sends ahead of whatever
+ *     the next SSL_write or SSL_shutdown offers, counting it in that call's result (SSL_MODE_ACCEPT_MOVING_WRITE_BUFFER only relaxes the
+ *     pointer check).  Observed natively (seeded/finding-btls-retry): a refused xcm_send(A) followed by xcm_send(B) puts 16384 bytes of A
+ *     into the stream in place of the first 16384 bytes of B (DESIGN section 6 F19, section 9.3).
  *  A5 "The peer's close was seen" (xv_ssl_close_seen, for the last failed call) means: close_notify received
  *     (ZERO_RETURN) or the transport under the BIO reported EOF / EPIPE (SYSCALL, empty queue, errno 0 / EPIPE).
  *  A6 The verification verdict (SSL_get_verify_result, a long) is an X509_V_* code, i.e. fits an int: OpenSSL copies it
@@ -80,6 +83,9 @@ _Bool xv_err_drained;
 int xv_ssl_err; unsigned long xv_err_queue; int xv_ssl_last_ret; _Bool xv_ssl_close_seen;
 int xv_ssl_errno;                            /* errno as the last handshake/read/write call left it */
 long xv_sw_calls; const SSL *xv_sw_ssl; const void *xv_sw_buf; int xv_sw_num; int xv_sw_ret;
+/* bytes of the caller's buffer that a REFUSED SSL_write (WANT_WRITE) has already turned into a record OpenSSL keeps and will send ahead of whatever the
+ * next SSL_write / SSL_shutdown offers (A4) */
+int xv_ssl_pending_rec;
 long xv_sr_calls; const SSL *xv_sr_ssl; const void *xv_sr_buf; int xv_sr_num; int xv_sr_ret;
 long xv_x509_refs;
 long xv_peer_cert_calls, xv_verify_result_calls, xv_errstr_calls;   /* SSL_get1_peer_certificate / SSL_get_verify_result / X509_verify_cert_error_string */
@@ -106,7 +112,7 @@ long xv_pending_calls; long xv_shutdown_calls; long xv_ssl_free_calls; const SSL
 #define XV_SSL_ERR_ASSIGNS xv_ssl_err, xv_err_queue, xv_ssl_last_ret, xv_ssl_close_seen, xv_ssl_errno, xv_err_drained
 #define XV_SSL_VERDICT_ASSIGNS xv_x509_refs, xv_peer_cert_calls, xv_verify_result_calls, xv_errstr_calls
 #define XV_SSL_HS_ASSIGNS xv_hs_calls, xv_hs_ssl, xv_hs_connect, xv_hs_ret, xv_ssl_hs_done, xv_ssl_peer_cert, xv_ssl_verify_result, XV_SSL_ERR_ASSIGNS
-#define XV_SSL_WRITE_ASSIGNS xv_sw_calls, xv_sw_ssl, xv_sw_buf, xv_sw_num, xv_sw_ret, XV_SSL_ERR_ASSIGNS
+#define XV_SSL_WRITE_ASSIGNS xv_sw_calls, xv_sw_ssl, xv_sw_buf, xv_sw_num, xv_sw_ret, xv_ssl_pending_rec, XV_SSL_ERR_ASSIGNS
 #define XV_SSL_READ_ASSIGNS xv_sr_calls, xv_sr_ssl, xv_sr_buf, xv_sr_num, xv_sr_ret, XV_SSL_ERR_ASSIGNS
 
 /* every btls harness calls this after xv_ghost_havoc() */
@@ -124,7 +130,7 @@ static inline void xv_ssl_havoc(void)
     xv_ssl_hs_done = nondet_bool(); xv_ssl_peer_cert = nondet_bool(); xv_ssl_verify_result = nondet_int();
     xv_err_drained = 0;
     xv_ssl_err = nondet_int(); xv_err_queue = (unsigned long)nondet_size_t(); xv_ssl_last_ret = nondet_int(); xv_ssl_close_seen = nondet_bool(); xv_ssl_errno = nondet_int();
-    xv_sw_calls = nondet_long(); xv_sw_ssl = (const SSL *)nondet_size_t(); xv_sw_buf = (const void *)nondet_size_t(); xv_sw_num = nondet_int(); xv_sw_ret = nondet_int();
+    xv_sw_calls = nondet_long(); xv_sw_ssl = (const SSL *)nondet_size_t(); xv_sw_buf = (const void *)nondet_size_t(); xv_sw_num = nondet_int(); xv_sw_ret = nondet_int(); xv_ssl_pending_rec = nondet_int();
     xv_sr_calls = nondet_long(); xv_sr_ssl = (const SSL *)nondet_size_t(); xv_sr_buf = (const void *)nondet_size_t(); xv_sr_num = nondet_int(); xv_sr_ret = nondet_int();
     xv_x509_refs = nondet_long(); xv_peer_cert_calls = nondet_long(); xv_verify_result_calls = nondet_long(); xv_errstr_calls = nondet_long();
     xv_pending_calls = nondet_long(); xv_shutdown_calls = nondet_long(); xv_ssl_free_calls = nondet_long(); xv_ssl_free_ssl = (const SSL *)nondet_size_t();
@@ -302,8 +308,14 @@ int SSL_write(SSL *ssl, const void *buf, int num)
             r = 0;
             xv_errno = 0; xv_ssl_errno = 0;
             xv_ssl_err = SSL_ERROR_SYSCALL; xv_err_queue = 0; xv_ssl_last_ret = r; xv_ssl_close_seen = 0;
-        } else
+        } else {
             xv_ssl_fail(r, 1);
+            if (num > 0 && r < 0 && xv_ssl_err == SSL_ERROR_WANT_WRITE) {      /* A4: a record may have been built and kept */
+                int kept = nondet_int();
+                __CPROVER_assume(kept >= 0 && kept <= num && kept <= 16384);
+                xv_ssl_pending_rec = kept;
+            }
+        }
     }
     xv_sw_ret = r;
     return r;
